@@ -6,7 +6,8 @@ World model (an explicit `&mut World` parameter, R43 -- the functions reach it t
 list of its attributes (ids, in storage order), for every attribute its owner element and its value; the local name of an
 attribute and the document a node belongs to are immutable (uninterpreted functions of the id).  The information-set primitives
 are assumed callees with the contracts their own units carry: `XmlElement::remove_attribute(name)` removes the FIRST attribute
-with that local name, clears its owner and answers it (units/c13_tree.py / DESIGN 9.21, `aed52b3`); `append_attribute` puts the
+with that local name, clears its owner and answers it -- PROVED in units/c13_tree.py for a list of pairwise different items, which
+is the precondition here; `append_attribute` puts the
 attribute at the end and makes the element its owner (`0f4a606`); `owner_element`, `get_attribute_node` (first by local name),
 `create_attribute` (a fresh attribute of this document without owner), `set_value`, `name`.  Equality of two
 `dom::XmlDocument`s is the identity of the document (`aecd8b7`); `Rc::ptr_eq` on two handles is "the same item".
@@ -77,6 +78,7 @@ impl World {
     // info::XmlElement::remove_attribute(name): removes the first attribute with that local name, clears its owner, answers it
     #[verifier::external_body]
     pub fn remove_attribute(&mut self, e: &ElemH, name: &str) -> (r: Option<ItemRef>)
+        requires old(self).list(e.ident).no_duplicates(),     // proved in units/c13_tree.py under exactly this condition (XmlElement::remove_attribute)
         ensures final(self).value@ == old(self).value@,
                 ({ let l = old(self).list(e.ident); let i = first_named(l, name@);
                    (i < 0 ==> r is None && final(self).attrs@ == old(self).attrs@ && final(self).owner@ == old(self).owner@)
@@ -165,6 +167,7 @@ def build():
     fns['remove_attribute'] = Fn(
         FD, OWNER, 'remove_attribute', props=P, safety_props=P, label='dom::XmlElement::remove_attribute', sig_rules=SIG,
         rules=[Rule('R43', r'self\.element\.borrow_mut\(\)\.remove_attribute\(name\);', 'let __gone = world.remove_attribute(&self.element, name);', 'RefCell borrow dropped (A4); the primitive edits the shared world')],
+        requires=[('the_attributes_of_an_element_are_pairwise_different_items', f'old(world).list({ME}).no_duplicates()')],
         ensures=[('C13:never_fails', 'r is Ok'),
                  ('C13:the_first_attribute_of_that_name_is_removed_and_loses_its_owner_nothing_else_changes',
                   f'({{ let l = old(world).list({ME}); let i = first_named(l, name@); final(world).value@ == old(world).value@'
@@ -181,7 +184,7 @@ def build():
                     'RefCell borrow dropped (A4); Option::and_then(as_attribute) + the later map(XmlAttr::from) -> one shim: the removed item as a DOM attribute'),
                Rule('R43', r'self\.element\s*\.borrow_mut\(\)\s*\.append_attribute\(Rc::new\(new_attr\.attribute\.into\(\)\)\);', KEEP_NL('world.append_attribute(&self.element, new_attr.attribute);'), 'RefCell borrow dropped (A4); Rc::new(handle.into()) is the item of the handle'),
                Rule('R48', r'Ok\(attr\.map\(XmlAttr::from\)\)', 'Ok(attr)', 'see item_as_attr above')],
-        requires=[('an_attribute_is_listed_by_exactly_its_owner', 'old(world).wf()')],
+        requires=[('an_attribute_is_listed_by_exactly_its_owner', 'old(world).wf()'), ('the_attributes_of_an_element_are_pairwise_different_items', f'old(world).list({ME}).no_duplicates()')],
         inject=[(r'let __name = new_attr\.name\(\);', f'proof {{ lemma_first_named(old(world).list({ME}), name_of(new_attr.attribute.ident)); }}', 'before'),
                 (r'world\.append_attribute\(&self\.element, new_attr\.attribute\);',
                  f'proof {{ let l = old(world).list({ME}); let a = new_attr.attribute.ident; let i = first_named(l, name_of(a));'
@@ -210,7 +213,7 @@ def build():
                Rule('R48', r'Rc::ptr_eq\(&attr\.attribute, &old_attr\.attribute\)', 'same_attr(&attr.attribute, &old_attr.attribute)', 'Rc::ptr_eq on two handles -> the same item'),
                Rule('R43', r'self\.remove_attribute\(old_attr\.name\(\)\.as_str\(\)\)\?;', 'self.remove_attribute(world, __name.as_str())?;', 'the world parameter is handed on'),
                R_ERR2],
-        requires=[('an_attribute_is_listed_by_exactly_its_owner', 'old(world).wf()'),
+        requires=[('an_attribute_is_listed_by_exactly_its_owner', 'old(world).wf()'), ('the_attributes_of_an_element_are_pairwise_different_items', f'old(world).list({ME}).no_duplicates()'),
                   ('attributes_are_identified_by_their_local_name', f'names_unique(old(world).list({ME}))')],
         inject=[(r'let __name = old_attr\.name\(\); let __m',
                  f'proof {{ let l = old(world).list({ME}); let a = old_attr.attribute.ident; let i = first_named(l, name_of(a)); lemma_first_named(l, name_of(a));'
@@ -231,7 +234,7 @@ def build():
                Rule('R43', r'let attr = self\.owner_document\(\)\.unwrap\(\)\.create_attribute\(name\)\?;', 'let attr = world.create_attribute(self, name)?;', 'owner_document().unwrap().create_attribute -> assumed callee (an element always has an owner document)'),
                Rule('R43', r'attr\.set_value\(value\)\?;', 'world.set_value(&attr, value)?;', 'the value lives in the shared world'),
                Rule('R43', r'self\.set_attribute_node\(attr\)\?;', 'let __r = self.set_attribute_node(world, attr)?;', 'the world parameter is handed on')],
-        requires=[('an_attribute_is_listed_by_exactly_its_owner', 'old(world).wf()')],
+        requires=[('an_attribute_is_listed_by_exactly_its_owner', 'old(world).wf()'), ('the_attributes_of_an_element_are_pairwise_different_items', f'old(world).list({ME}).no_duplicates()')],
         inject=[(r'if let Some\(attr\) = world\.get_attribute_node', f'proof {{ lemma_first_named(old(world).list({ME}), name@); }}', 'before'),
                 (r'let __r = self\.set_attribute_node\(world, attr\)\?;',
                  'proof { assert(world.attrs@ == old(world).attrs@ && world.owner@ == old(world).owner@);'
